@@ -47,6 +47,7 @@ type fidAux struct {
 	token int
 	node  *node
 	auth  bool
+	destroyGate *vs.Sem
 }
 
 // Entry is one line of the invocation log.
@@ -67,6 +68,7 @@ type Entry struct {
 // Action scripts one request.
 type Action struct {
 	Gate    *vs.Sem // park here before answering
+	DestroyGate *vs.Sem // Clunk/Remove: answer at once, then park in the FidDestroy of the request's fid
 	Err     string  // answer with this error
 	Twice   bool    // answer a second time (with different content)
 	Silent  bool    // do not answer at all (saved request)
@@ -464,6 +466,9 @@ func (fs *FS) Write(req *go9p.SrvReq) {
 
 func (fs *FS) Clunk(req *go9p.SrvReq) {
 	a, _ := fs.enter(req, "Clunk", req.Fid, "")
+	if a.DestroyGate != nil {
+		fs.show(req.Fid, nil).destroyGate = a.DestroyGate
+	}
 	if a.Silent {
 		fs.Saved = append(fs.Saved, req)
 		return
@@ -482,6 +487,9 @@ func (fs *FS) Clunk(req *go9p.SrvReq) {
 func (fs *FS) Remove(req *go9p.SrvReq) {
 	x := auxOf(req.Fid)
 	a, _ := fs.enter(req, "Remove", req.Fid, "")
+	if a.DestroyGate != nil {
+		fs.show(req.Fid, nil).destroyGate = a.DestroyGate
+	}
 	if a.Silent {
 		fs.Saved = append(fs.Saved, req)
 		return
@@ -571,6 +579,12 @@ func (fs *FS) FidDestroy(f *go9p.SrvFid) {
 	}
 	fs.destroyed[tok]++
 	fs.Log = append(fs.Log, Entry{Seq: vs.Seq(), Kind: "destroy", Conn: ci, Token: tok, User: userName(f.User)})
+	if a := auxOf(f); a != nil && a.destroyGate != nil {
+		// an implementation slow to let go of the fid
+		g := a.destroyGate
+		a.destroyGate = nil
+		g.Acquire()
+	}
 }
 
 func (fs *FS) ConnOpened(c *go9p.Conn) {
